@@ -2,7 +2,8 @@
 SPECIFICATION Spec
 CONSTANTS
   KwPermitted = FALSE
-  Lat = {"lenient", "strict"}
+  LatOor = {"lenient", "strict"}
+  LatRec = {"lenient", "strict"}
   AppendKw = {"drop", "keep"}
   Inits = {"empty", "std"}
   MaxCmds = 1
